@@ -469,6 +469,10 @@ class _Gen(object):
                 kinds += ['tun', 'tun', 'tun']
             if tbin_t:
                 kinds += ['tbin', 'tbin']
+        elif tun_t and p.temporal_in_arith:
+            # a bounded operator whose window starts at 0 always contains the current sample: finite over a finite operand,
+            # so it may stand below arithmetic and comparisons ((eventually[0,2] x) - (always[0,2] x) <= 1)
+            kinds += ['tun0']
         if not kinds:
             f, m = self.predicate(depth)
             return f, True, m
@@ -503,6 +507,12 @@ class _Gen(object):
             l, lf, ml = sub(depth - 1, fin)
             r, rf, mr = sub(depth - 1, fin)
             return ('bin', op, l, r), lf and rf, max(ml, mr)
+        if kind == 'tun0':
+            op = self.choice(tun_t)
+            b = self.integer(0, self.p.max_bound)
+            sub = self.past_operand if op in TUN_PAST else self.formula
+            c, cf, m = sub(depth - 1, True)
+            return ('tun', op, 0, b, c), True, m
         if kind == 'tun':
             op = self.choice(tun_t)
             a, b = self.bounds()
